@@ -3441,7 +3441,7 @@ def k_use_with(E, tier):
         paths = [p for p in ex.run(f, [sym.Opaque("closure", "env", ctx), sym.Opaque("&mut CssData", "dest", ctx)]) if p.status == "return"]
         rec.paths += len(paths)
         n_ok = n_dup = 0
-        bad_order, bad_dup, unchecked = [], [], []
+        bad_order, bad_dup, unchecked, bad_def = [], [], [], []
         for i, p in enumerate(paths):
             if any(e.callee == "cut" for e in p.events):
                 continue
@@ -3449,6 +3449,10 @@ def k_use_with(E, tier):
             defs = [e for e in p.events if e.callee == "define"]
             hp = [e for e in p.events if e.callee == "handle_parsed"]
             ret = p.ret
+            for dk, de in enumerate(defs):
+                look = [e for e in p.events[:p.events.index(de)] if e.callee == "get_or_none" and e.rargs[0] is module and e.rargs[1] is de.rargs[1]]
+                if not look or E.decide(ctx, p.pc + ["(not (= %s %s))" % (ex.discriminant(look[-1].result).term, bvlit(0, 64))])["verdict"] != "holds":
+                    bad_def.append(i)
             if isinstance(ret, sym.Agg) and ret.variant == "Ok" and n >= 1:
                 n_ok += 1
                 order = [e.callee for e in p.events if e.callee in ("define", "handle_parsed")]
@@ -3476,6 +3480,8 @@ def k_use_with(E, tier):
                 {"verdict": "holds" if not bad_order else "violated", "per_solver": {"structural": "event order %s" % bad_order[:5]}, "time_s": 0})
         rec.add("%s: `may only be configured once` exactly when the module scope already holds that name (%d paths)" % (which, n_dup),
                 {"verdict": ("holds" if not bad_dup else "violated") if n_dup else "inconclusive", "per_solver": {"z3+cvc5": "pc implies the lookup is Some", "paths": str(bad_dup[:5])}, "time_s": 0})
+        rec.add("%s: a configured variable is defined only when the module scope does not hold that name yet (whatever its value, null included)" % which,
+                {"verdict": "holds" if not bad_def else "violated", "per_solver": {"z3+cvc5": "pc implies the lookup is None", "paths": str(sorted(set(bad_def))[:5])}, "time_s": 0})
         o = rec.add("%s: a configured variable that the module does not declare with !default is an error (the closure never looks at the configured names again after evaluating the module)" % which,
                     {"verdict": "holds" if not unchecked else "violated", "per_solver": {"structural": "no event mentions a configured name after handle_parsed on paths %s" % unchecked[:5]}, "time_s": 0})
         o["region_excluded"] = "holds"   # the finding is exactly this obligation; nothing else is folded into it
@@ -3726,6 +3732,206 @@ def k_nth(E, tier):
             rec.add("%s: returns %s" % (g.name.split("::")[-1], what), {"verdict": "holds" if ok else "violated", "per_solver": {"structural": "event identity"}, "time_s": 0})
     if n_ok < 4:
         rec.add("the four index checker closures were found (%d)" % n_ok, {"verdict": "inconclusive", "per_solver": {}, "time_s": 0})
+    return rec
+
+
+def k_css_clamp(E, tier):
+    """C29: the global CSS clamp(min, number, max) for three plain numbers of one dimension returns the same
+    argument as math.clamp: $min when number <= min (also when the bounds cross), else $max when number >=
+    max, else the number itself."""
+    nos = E.load_enum("sass/functions/num_or_special.rs", "NumOrSpecial")
+    f = E.find(name_re=r"math::css::global::\{closure#\d+\}$", contains=["PartialOrd>::ge", "PartialOrd>::le", "known_dim_spec"])
+    rec = Rec("global clamp() closure (math/css.rs)", f, E)
+    ctx = E.ctx()
+    nums = [sym.Opaque("Numeric", n, ctx) for n in ("min", "number", "max")]
+
+    def full(ex, st, x):
+        while isinstance(x, sym.Ref):
+            x = ex.deref(st, x)
+        return x
+
+    def m_args_iter(ex, st, c, a, d):
+        return sym.Agg(d, "Ok", {"0": sym.Opaque("iter", "args", ctx)}, 0)
+
+    def m_next(ex, st, c, a, d):
+        k = sum(1 for e in st.events if e.callee == "arg-next")
+        st.events.append(sym.Event("arg-next", [], None, len(st.pc)))
+        if k >= 3:
+            return sym.Agg(d, "None", {}, 0)
+        v = sym.Agg("NumOrSpecial", "Num", {"0": nums[k]}, nos.index("Num"))
+        return sym.Agg(d, "Some", {"0": sym.Agg("Result", "Ok", {"0": v}, 0)}, 1)
+
+    def m_required(ex, st, c, a, d):
+        x = a[0]
+        return sym.Agg(d, "Ok", {"0": x.fields["0"]}, 0) if isinstance(x, sym.Agg) and x.variant == "Some" else None
+
+    def m_transpose(ex, st, c, a, d):
+        x = a[0]
+        if isinstance(x, sym.Agg) and x.variant == "Some" and isinstance(x.fields["0"], sym.Agg) and x.fields["0"].variant == "Ok":
+            return sym.Agg(d, "Ok", {"0": sym.Agg("Option", "Some", {"0": x.fields["0"].fields["0"]}, 1)}, 0)
+        if isinstance(x, sym.Agg) and x.variant == "None":
+            return sym.Agg(d, "Ok", {"0": sym.Agg("Option", "None", {}, 0)}, 0)
+        return None
+
+    def m_count(ex, st, c, a, d):
+        return sym.Scalar(("bv", 64, False), bvlit(0, 64))
+
+    def m_check_excess(ex, st, c, a, d):
+        return sym.Agg(d, "Ok", {"0": sym.Unit()}, 0)
+
+    def m_bool(name):
+        def m(ex, st, c, a, d):
+            b = ctx.fresh_scalar("bool", name)
+            e = sym.Event(name, a, b, len(st.pc))
+            e.rargs = [full(ex, st, x) for x in a]
+            st.events.append(e)
+            return b
+        return m
+
+    def m_into(ex, st, c, a, d):
+        return sym.Agg("css::value::Value", "Numeric", {"0": full(ex, st, a[0])})
+
+    models = [
+        (r"^args_iter$", m_args_iter), (r"^<std::iter::Map<std::vec::IntoIter<css::value::Value>, .*> as Iterator>::next$", m_next),
+        (r"^required_arg::<", m_required), (r"^Option::<std::result::Result<NumOrSpecial, CallError>>::transpose$", m_transpose),
+        (r"as Iterator>::count$", m_count), (r"^check_excess_args$", m_check_excess),
+        (r"^Option::<CssDimensionSet>::is_some$", m_bool("is_some")), (r"^<Option<CssDimensionSet> as PartialEq>::ne$", m_bool("dim_ne")),
+        (r"^<Option<Vec<\(Dimension, i8\)>> as PartialEq>::eq$", m_bool("spec_eq")),
+        (r"^<Numeric as PartialOrd>::ge$", m_bool("ge")), (r"^<Numeric as PartialOrd>::le$", m_bool("le")),
+        (r"^<Numeric as std::convert::Into<css::value::Value>>::into$", m_into),
+    ] + BASE_MODELS
+    ex = sym.Executor(ctx, models=models, feasibility=E.feasibility(ctx), max_paths=4000)
+    paths = [p for p in ex.run(f, [sym.Opaque("closure", "self", ctx), sym.Opaque("&ResolvedArgs", "s", ctx)]) if p.status == "return"]
+    rec.paths = len(paths)
+    mn, nu, mx = nums
+    seen = set()
+    for i, p in enumerate(paths):
+        if not (isinstance(p.ret, sym.Agg) and p.ret.variant == "Ok"):
+            continue
+        v = p.ret.fields["0"]
+        if not (isinstance(v, sym.Agg) and v.variant == "Numeric"):
+            continue  # left to CSS (clamp(...) call) — dimensions not statically comparable
+        out = v.fields["0"]
+        ge = [e for e in p.events if e.callee == "ge"]
+        le = [e for e in p.events if e.callee == "le"]
+        if len(ge) != 1 or len(le) != 1:
+            rec.add("path %d: one `>=` against max and one `<=` against min (shape not recognised)" % i, {"verdict": "inconclusive", "per_solver": {}, "time_s": 0})
+            continue
+        first = [e.callee for e in p.events if e.callee in ("ge", "le")]
+        r1 = E.decide(ctx, p.pc + ["(not %s)" % ge[0].result.term])["verdict"] == "holds"
+        kept = mx if r1 else nu
+        wired = first == ["ge", "le"] and ge[0].rargs[0] is nu and ge[0].rargs[1] is mx and le[0].rargs[0] is kept and le[0].rargs[1] is mn
+        if not wired:
+            rec.add("path %d: number >= max is tested first, then the kept value <= min (so that min wins when the bounds cross)" % i,
+                    {"verdict": "violated", "per_solver": {"structural": "event order %s / identity" % first}, "time_s": 0})
+            continue
+        r2 = E.decide(ctx, p.pc + ["(not %s)" % le[0].result.term])["verdict"] == "holds"
+        want = mn if r2 else kept
+        which = "min" if want is mn else ("max" if want is mx else "number")
+        seen.add(which)
+        rec.add("path %d: returns %s, the argument the comparisons select" % (i, which),
+                {"verdict": "holds" if out is want else "violated", "per_solver": {"structural": "identity"}, "time_s": 0})
+    if seen != {"min", "max", "number"}:
+        rec.add("all three outcomes are present (%s)" % sorted(seen), {"verdict": "violated" if seen else "inconclusive", "per_solver": {}, "time_s": 0})
+    return rec
+
+
+def k_get_list(E, tier):
+    """C28: get_list (what append, join and set-nth see of their list argument): a list passes through with
+    its own separator and brackets; an argument list is exactly its positional values followed by its keyword
+    arguments as pairs, comma separated; a map is its (key value) pairs, comma separated, or the empty list
+    with no separator when empty; anything else is the one-element list of itself with no separator."""
+    cssv = E.load_enum("css/value.rs", "Value", "css::value::Value")
+    f = E.find(name="get_list")
+    rec = Rec("list::get_list", f, E)
+    ctx = E.ctx()
+    val = sym.Opaque("css::value::Value", "value", ctx)
+
+    def full(ex, st, x):
+        while isinstance(x, sym.Ref):
+            x = ex.deref(st, x)
+        return x
+
+    def m_ev(name, ret=None):
+        def m(ex, st, c, a, d):
+            o = ret(d) if ret else ctx.fresh_value(d or "()", "ret." + name)
+            e = sym.Event(name, a, o, len(st.pc))
+            e.rargs = [full(ex, st, x) for x in a]
+            st.events.append(e)
+            return o
+        return m
+
+    def m_is_empty(ex, st, c, a, d):
+        b = ctx.fresh_scalar("bool", "map_is_empty")
+        st.events.append(sym.Event("is_empty", a, b, len(st.pc)))
+        return b
+
+    models = [
+        (r"^<OrderMap<.*> as IntoIterator>::into_iter$", m_ev("into_iter")), (r"as Iterator>::map::<css::value::Value", m_ev("iter_map")),
+        (r"^<Vec<css::value::Value> as Extend<css::value::Value>>::extend::<", m_ev("extend", lambda d: sym.Unit())),
+        (r"as Iterator>::collect::<Vec<css::value::Value>>$", m_ev("collect")), (r"^OrderMap::<.*>::is_empty$", m_is_empty),
+        (r"^Vec::<css::value::Value>::new$", m_ev("vec_new")), (r"^css::value::Value::iter_items$", m_ev("iter_items")),
+        (r"^std::boxed::box_assume_init_into_vec_unsafe::<", m_ev("vec_of_box")), (r"^Box::<\[css::value::Value; 1\]>::new_uninit$", m_ev("box")),
+    ] + BASE_MODELS
+    ex = sym.Executor(ctx, models=models, feasibility=E.feasibility(ctx))
+    paths = [p for p in ex.run(f, [val]) if p.status == "return"]
+    rec.paths = len(paths)
+    D = val.discriminant().term
+    seen = set()
+    for i, p in enumerate(paths):
+        r = p.ret
+        if not (isinstance(r, sym.Agg) and {"0", "1", "2"} <= set(r.fields)):
+            rec.add("path %d: a (elements, separator, bracketed) triple is returned (shape not recognised)" % i, {"verdict": "inconclusive", "per_solver": {}, "time_s": 0})
+            continue
+        vec, sep, bra = r.fields["0"], r.fields["1"], r.fields["2"]
+        sepname = (sep.fields["0"].variant if isinstance(sep, sym.Agg) and sep.variant == "Some" and isinstance(sep.fields.get("0"), sym.Agg) else
+                   ("None" if isinstance(sep, sym.Agg) and sep.variant == "None" else None))
+        notbra = isinstance(bra, sym.Scalar) and bra.term == "false"
+        evs = {e.callee: e for e in p.events}
+        is_ = lambda name: "(= %s %s)" % (D, bvlit(cssv.index(name), 64))
+        if vec is val.children.get("List.0"):
+            ok = sep is val.children.get("List.1") and bra is val.children.get("List.2")
+            res = E.decide(ctx, p.pc + ["(not %s)" % is_("List")])
+            rec.add("path %d [list]: elements, separator and brackets of a list pass through unchanged" % i, res if ok else {"verdict": "violated", "per_solver": {"structural": "identity"}, "time_s": 0})
+            seen.add("list")
+        elif "iter_items" in evs and vec is evs["iter_items"].result:
+            rec.add("path %d [arglist]: the elements are the positional values followed by the keyword pairs and nothing else (Value::iter_items adds a null for a trailing comma)" % i,
+                    {"verdict": "violated", "per_solver": {"structural": "elements come from Value::iter_items"}, "time_s": 0})
+            seen.add("arglist")
+        elif "extend" in evs:
+            al = val.children.get("ArgList.0")
+            pos = al.children.get("0") if al is not None else None
+            named = al.children.get("1") if al is not None else None
+            src_ok = ("into_iter" in evs and evs["into_iter"].rargs[0] is named and "iter_map" in evs and evs["iter_map"].rargs[0] is evs["into_iter"].result
+                      and evs["extend"].rargs[0] is pos and evs["extend"].rargs[1] is evs["iter_map"].result and vec is pos)
+            ok = src_ok and sepname == "Comma" and notbra and sum(1 for e in p.events if e.callee == "extend") == 1
+            res = E.decide(ctx, p.pc + ["(not %s)" % is_("ArgList")])
+            rec.add("path %d [arglist]: the positional vector, extended once by the keyword arguments mapped to pairs; comma separated, not bracketed" % i,
+                    res if ok else {"verdict": "violated", "per_solver": {"structural": "event identity"}, "time_s": 0})
+            seen.add("arglist")
+        elif "collect" in evs and vec is evs["collect"].result:
+            mp = val.children.get("Map.0")
+            ok = (evs["into_iter"].rargs[0] is mp and evs["iter_map"].rargs[0] is evs["into_iter"].result and evs["collect"].rargs[0] is evs["iter_map"].result
+                  and sepname == "Comma" and notbra)
+            res = E.decide(ctx, p.pc + ["(not (and %s (not %s)))" % (is_("Map"), evs["is_empty"].result.term)]) if "is_empty" in evs else {"verdict": "violated", "per_solver": {}, "time_s": 0}
+            rec.add("path %d [non-empty map]: the entries mapped to pairs, comma separated, not bracketed" % i, res if ok else {"verdict": "violated", "per_solver": {"structural": "event identity"}, "time_s": 0})
+            seen.add("map")
+        elif "vec_new" in evs and vec is evs["vec_new"].result:
+            ok = sepname == "None" and notbra
+            res = E.decide(ctx, p.pc + ["(not (and %s %s))" % (is_("Map"), evs["is_empty"].result.term)]) if "is_empty" in evs else {"verdict": "violated", "per_solver": {}, "time_s": 0}
+            rec.add("path %d [empty map]: the empty list with no separator" % i, res if ok else {"verdict": "violated", "per_solver": {"structural": "shape"}, "time_s": 0})
+            seen.add("empty-map")
+        elif "vec_of_box" in evs and vec is evs["vec_of_box"].result:
+            stored = [e.args[1] for e in p.events if e.callee == "store-opaque"]
+            ok = any(_payload_contains(sv, val) for sv in stored) and sepname == "None" and notbra
+            res = E.decide(ctx, p.pc + ["(or %s %s %s)" % (is_("List"), is_("Map"), is_("ArgList"))])
+            rec.add("path %d [single value]: the one-element list of the value itself, no separator" % i, res if ok else {"verdict": "violated", "per_solver": {"structural": "shape"}, "time_s": 0})
+            seen.add("single")
+        else:
+            rec.add("path %d: where the elements come from (shape not recognised)" % i, {"verdict": "inconclusive", "per_solver": {"structural": repr(vec)[:60]}, "time_s": 0})
+    need = {"list", "arglist", "map", "empty-map", "single"}
+    if not need <= seen:
+        rec.add("all five kinds of argument explored (%s missing)" % sorted(need - seen), {"verdict": "inconclusive", "per_solver": {}, "time_s": 0})
     return rec
 
 
@@ -4941,4 +5147,12 @@ def k_lock_loading(E, tier):
                 {"verdict": "holds" if ok else ("inconclusive" if unknown else "violated"), "per_solver": {"structural": "identity"}, "time_s": 0})
     if not p2:
         rec.add("unlock has a path", {"verdict": "inconclusive", "per_solver": {}, "time_s": 0})
+    # lock and unlock must agree on the key: a file registered under one spelling and removed under another stays locked
+    ins_keys = [e.rargs[1] for p in paths for e in p.events if e.callee == "insert"]
+    rm_keys = [e.rargs[1] for p in p2 for e in p.events if e.callee == "remove"]
+    if ins_keys and rm_keys:
+        same = all(k is rm_keys[0] for k in ins_keys + rm_keys)
+        one_is_name = any(k is key_name for k in ins_keys + rm_keys)
+        rec.add("lock and unlock use the same key (the file's name as the loader resolved it)",
+                {"verdict": "holds" if same else ("violated" if one_is_name else "inconclusive"), "per_solver": {"structural": "identity of the key handed to insert and to remove"}, "time_s": 0})
     return rec
